@@ -41,6 +41,7 @@ def cases(draw):
         "l1": draw(st.one_of(st.none(), st.lists(st.integers(0, 20), min_size=1, max_size=4))),
         "l2": draw(st.one_of(st.none(), st.lists(st.integers(0, 20), min_size=1, max_size=3))),
         "as_ids": draw(st.booleans()),
+        "container": draw(st.sampled_from(["list", "list", "dictlist"])),
         "method": draw(st.sampled_from(["fba", "fba", "fba", "linear moma"])),
         "processes": draw(st.sampled_from([1, 1, 1, 2])),
         "threshold": draw(st.sampled_from([None, None, 0.5, 1e-3, 5])),
@@ -135,6 +136,11 @@ def check_case(case, ctx):
         if sel is None:
             return None, list(universe)
         ids = [universe[i % len(universe)] for i in sel]
+        if not case["as_ids"] and case.get("container") == "dictlist":  # e.g. model.genes.query(...), a slice of model.reactions
+            from cobra import DictList
+
+            ids = list(dict.fromkeys(ids))
+            return DictList(dl.get_by_id(x) for x in ids), ids
         return ([x for x in ids] if case["as_ids"] else [dl.get_by_id(x) for x in ids]), ids
 
     a1, ids1 = mk(case["l1"])
